@@ -136,10 +136,12 @@ def part_content(ctx: Ctx, worlds) -> None:
     for i, cj in enumerate(sorted(cases, key=lambda c: str(sorted(c["case"].items())))):
         c = cj["case"]
         # quick: every (extra, emission point, transport) with two text classes and the level rotating; thorough: the product
-        if ctx.quick and c["route"] == "inline" and (
+        if ctx.quick and c["route"] == "inline" and c["via"] == "ctx" and (
                 (hash_small(c) % 5) != G.LEVELS.index(c["lvl"]) or TXT_ORDER.index(c["txt"]) % 3 != hash_small({**c, "txt": ""}) % 3):
             continue
         if ctx.quick and c["route"] != "inline" and hash_small(c) % 2:
+            continue
+        if ctx.quick and c["via"] == "out" and (hash_small(c) % 5) != G.LEVELS.index(c["lvl"]):
             continue
         sel.append(c)
     obs, metas = [], []
@@ -153,7 +155,7 @@ def part_content(ctx: Ctx, worlds) -> None:
         c, o = metas[idx]
         for cl in clauses:
             ctx.violation(cl, {"part": "content", "transport": c["tr"], "at": c["at"], "extra": c["extra"], "exit": c["exit"],
-                               "route": c["route"]},
+                               "route": c["route"], "via": c["via"]},
                           {"case": c, "observed": _pub(o), "notes": o["_notes"]})
     ctx.extra["content_cases_enumerated"] = len(cases)
     ctx.extra["content_cases_executed"] = len(sel)
